@@ -6,11 +6,13 @@ Byte strings are given as `+`-joined pieces `<mul>.<add>.<start>.<len>` of the s
 (`FileXfer.pattern`), `-` = empty.
 
 download side
-  `dl <pre-bytes>`               new download, local file holds `<pre-bytes>`            → snapshot
+  `dl <pre-bytes> [<0|1>]`       new download, local file holds `<pre-bytes>` (0: no local path yet) → snapshot
   `begin <announced> <0|1>`      PeerTransferRequest accepted …, offset sent (1 = limiter)  → snapshot |
-                                 `refused-complete` | `ignored`
+                                 `refused-complete` | `refused-cancelled` | `ignored`
   `begincut <announced>`         … connection broke before the offset went out           → idem
   `seg <bytes>` `eof` `err`                                                               → snapshot
+  `remote <bytes>`               ghost: the uploader's file changes                      → `ok`
+  `pause` `pausew <bytes>` `queue` `save` `crash <keep>`                                  → snapshot
   `hash`                                                                                  → `h=<fnv> len=<n>`
   snapshot = `<STATE> off=<offset> bt=<bytes_transfered> len=<file size | - while downloading> closed=<0|1> w=<write sizes of this op | ->`
 upload side
@@ -52,23 +54,30 @@ def dop (s : DSt) (op : Op) (fresh : Bool) : DSt × String :=
   let before := if fresh then 0 else s.d.log.length
   ({ s with d := d' }, snap d' (d'.log.drop before))
 
+/-- `_on_peer_transfer_request` for a download that cannot begin: COMPLETE / PAUSED are refused with a reason, a
+transfer that is being processed ignores the request -/
+def refusal (d : Dl) : String :=
+  if d.st = .complete then "refused-complete" else if d.st = .paused then "refused-cancelled" else "ignored"
+
 def handle (s : DSt) (line : String) : DSt × String :=
   match (line.splitOn " ").filter (· ≠ "") with
   | ["dl", pre] =>
     match parseBytes pre with
     | some p => let d := Dl.init p; ({ s with d := d }, snap d [])
     | none => (s, "bad-op")
+  | ["dl", pre, hp] =>
+    match parseBytes pre, hp.toNat? with
+    | some p, some h => let d := Dl.init p (h != 0); ({ s with d := d }, snap d [])
+    | _, _ => (s, "bad-op")
   | ["begin", a, l] =>
     match a.toNat?, l.toNat? with
     | some a, some l =>
-      if canBegin s.d then dop s (.begin a (l != 0)) true
-      else if s.d.st = .complete then (s, "refused-complete") else (s, "ignored")
+      if canBegin s.d then dop s (.begin a (l != 0)) true else (s, refusal s.d)
     | _, _ => (s, "bad-op")
   | ["begincut", a] =>
     match a.toNat? with
     | some a =>
-      if canBegin s.d then dop s (.beginCut a) true
-      else if s.d.st = .complete then (s, "refused-complete") else (s, "ignored")
+      if canBegin s.d then dop s (.beginCut a) true else (s, refusal s.d)
     | none => (s, "bad-op")
   | ["seg", bs] =>
     match parseBytes bs with
@@ -76,6 +85,21 @@ def handle (s : DSt) (line : String) : DSt × String :=
     | none => (s, "bad-op")
   | ["eof"] => dop s .eof false
   | ["err"] => dop s .err false
+  | ["remote", bs] =>
+    match parseBytes bs with
+    | some b => ({ s with d := step s.d (.remote b) }, "ok")
+    | none => (s, "bad-op")
+  | ["pause"] => dop s .pause false
+  | ["pausew", bs] =>
+    match parseBytes bs with
+    | some b => dop s (.pauseWrite b) false
+    | none => (s, "bad-op")
+  | ["queue"] => dop s .queue false
+  | ["save"] => dop s .save false
+  | ["crash", k] =>
+    match k.toNat? with
+    | some k => dop s (.crash k) false
+    | none => (s, "bad-op")
   | ["hash"] => (s, s!"h={fnv s.d.loc} len={s.d.loc.length}")
   | ["ul", f] =>
     match parseBytes f with
